@@ -50,6 +50,16 @@ type AuthCfg struct {
 	// whose text is the last response it received (a debugging aid of some test servers; a
 	// server may say anything).
 	EchoOnCancel bool `json:"echoOnCancel,omitempty"`
+	// IterLater > 0: from the second connection on the account's iteration count is this one
+	// (the server re-hashed its password store; the salt stayed).
+	IterLater int `json:"iterLater,omitempty"`
+}
+
+func (a AuthCfg) iterFor(s *Session) int {
+	if a.IterLater > 0 && s != nil && s.ID >= 2 {
+		return a.IterLater
+	}
+	return a.Iter
 }
 
 func (a AuthCfg) loginPrompt(i int) []byte {
@@ -421,7 +431,7 @@ func (s *scramSrv) clientFirst(m string) StepOut {
 		suffix = "3rfcNHYJY1ZVvWVs7j"
 	}
 	s.nonce = cn + suffix
-	iter := s.a.Iter
+	iter := s.a.iterFor(s.sess)
 	if iter <= 0 {
 		iter = 4096
 	}
@@ -458,6 +468,11 @@ func (s *scramSrv) clientFinal(m string) StepOut {
 		if st.Version >= tls.VersionTLS13 && s.cbTyp != "tls-exporter" {
 			return s.fail("TLS 1.3 needs tls-exporter")
 		}
+		if st.Version < tls.VersionTLS13 && s.cbTyp != "tls-unique" {
+			// the type this verifier offers below TLS 1.3 (RFC 5929; also on resumed sessions,
+			// whose Finished messages are as unique as those of a full handshake)
+			return s.fail("channel binding: below TLS 1.3 this server supports tls-unique only, the client used %s", s.cbTyp)
+		}
 		want = append(want, data...)
 	}
 	if !bytes.Equal(cb, want) {
@@ -470,7 +485,7 @@ func (s *scramSrv) clientFinal(m string) StepOut {
 	if err != nil {
 		return s.fail("proof is not base64")
 	}
-	iter := s.a.Iter
+	iter := s.a.iterFor(s.sess)
 	if iter <= 0 {
 		iter = 4096
 	}
